@@ -100,7 +100,7 @@ class C08(CheckBase):
         gd = rng.choice(bp.DIALECT_NAMES)
         dialect = rng.weighted([(6, gd), (3, None), (2, rng.choice(bp.DIALECT_NAMES)), (1, 'bogus'), (1, 'help'), (1, '')])
         listo = rng.weighted([(4, None), (5, str(rng.below(8))), (2, rng.choice(['8', '-1', 'x', '7x', '', '99999999999999999999', ' 3', '0x3']))])
-        extra = rng.weighted([(12, None), (1, '--frob'), (1, '-x'), (1, '--help'), (1, '--dialect'), (1, '--listo'), (1, '-h'), (1, '-l'), (1, '-d'), (1, '-D')])
+        extra = rng.weighted([(12, None), (1, '--frob'), (1, '-x'), (1, '--help'), (1, '--dialect'), (1, '--listo'), (1, '-h'), (1, '-l'), (1, '-d'), (1, '-D'), (1, '--dump-token-maps'), (1, '--dump-token-maps=-'), (1, '--dump-token-maps=nonexistent-dir/x'), (1, '--dial'), (1, '--list=3')])
         ninputs = rng.weighted([(6, 1), (2, 2), (1, 3), (1, 0)])
         inputs = [self.gen_input(rng, gd) for _ in range(ninputs)]
         delivery = rng.weighted([(6, 'file'), (2, 'stdin_file'), (2, 'stdin_pipe')]) if ninputs >= 1 else 'file'
